@@ -210,6 +210,13 @@ SNIPPETS = textwrap.dedent('''
         return ["{} < {} < {}".format(a, name, b), "{0}-{1}-{0}".format(a, b), "x={v} {n}".format(v=a, n=name),
                 "Slicing " + str(name) + " = " + format(a) + " ", format(b, "05d"), "{:05d}".format(a)]
 
+    def s_squeeze(a, b, c):
+        x = np.arange(a * b * c).reshape(a, b, c)
+        y = np.squeeze(x)
+        z = np.squeeze(x[:, :, :1], axis=-1)
+        first = y[tuple([0] * len(y.shape))] if len(y.shape) else int(y)
+        return [len(y.shape), first, z.shape[0], z.shape[1], z[a - 1, b - 1]]
+
     def s_stack_min(a):
         x = np.arange(a * a).reshape(a, a)
         y = x[::-1, :]
@@ -304,6 +311,8 @@ def rnd_inputs(name, rng):
         return [R(1, 4), R(1, 4)]
     if name == "s_stack_min":
         return [R(1, 4)]
+    if name == "s_squeeze":
+        return [R(2, 3), R(1, 3), R(1, 3)]       # (all axes of extent 1 would give a 0-d array: outside the value domain)
     if name == "s_str_format":
         return [R(0, 99), R(0, 99), rng.choice(["x", "temp", "Y(H2)"])]
     if name == "s_minmax_default":
